@@ -797,6 +797,48 @@ def benchmark_object_reuse(run: Run, thorough: bool):
                          desc, expected=v.reshape(-1)[:6].tolist(), observed=now.reshape(-1)[:6].tolist())
 
 
+def constant_model_reuse(run: Run, thorough: bool):
+    """ONE ConstantModel object personalised on tables holding the same features in different column orders (and then estimated):
+    every value must stay attached to the NAME of its feature."""
+    import pandas as pd
+    from leaspy.io.data import Data
+    from leaspy.models import ConstantModel
+    g = run.rng("constant-reuse")
+    feats = ["MMSE", "ADAS", "CDR"]
+    for c in range(6 if thorough else 3):
+        rows = []
+        for i in range(g.randint(2, 4)):
+            for t in sorted(g.sample(range(240, 330), g.randint(1, 4))):
+                rows.append(dict(ID=f"p{i}", TIME=t / 4, MMSE=float(g.randint(10, 30)), ADAS=100.0 + g.randint(0, 40), CDR=g.randint(0, 12) / 4 - 50.0))
+        df = pd.DataFrame(rows)
+        orders = [feats, [feats[2], feats[0], feats[1]], [feats[1], feats[2], feats[0]]]
+        for kind in ("last", "mean", "max"):
+            model = ConstantModel("constant")
+            ref = None
+            for k, order in enumerate(orders):
+                desc = dict(case="constant-reuse", prediction_type=kind, column_orders=orders[:k + 1], rows=rows)
+                run.case(("constant-reuse", c, kind, k), nontrivial=k > 0)
+                try:
+                    with warnings.catch_warnings():
+                        warnings.simplefilter("ignore")
+                        ip = model.personalize(Data.from_dataframe(df[["ID", "TIME"] + order]), "constant_prediction", prediction_type=kind)
+                        est = model.estimate({i: [80.0] for i in ip._indices}, ip)
+                except Exception as e:
+                    run.fail(f"constant:reuse:raises:{type(e).__name__}", f"{type(e).__name__}: {e}", desc)
+                    break
+                got = {i: {f: float(ip._individual_parameters[i][f]) for f in feats} for i in ip._indices}
+                cols = list(model.features)
+                got_est = {i: {f: float(est[i][0][cols.index(f)]) for f in feats} for i in ip._indices}
+                if ref is None:
+                    ref = got
+                if got != ref or got_est != ref:
+                    bad = next(i for i in ref if got.get(i) != ref[i] or got_est.get(i) != ref[i])
+                    run.fail("constant:value-attached-to-another-feature",
+                             f"the same ConstantModel personalised on the same data with the columns in the order {order}: values are no longer "
+                             f"those of the named features (individual {bad})", desc, expected=ref[bad], observed=dict(personalize=got.get(bad), estimate=got_est.get(bad)))
+                    break
+
+
 def lme_all(run: Run, thorough: bool):
     cases_p, meta_p, cases_t, meta_t, cases_b, meta_b = [], [], [], [], [], []
     lme_designed(run, 60 if thorough else 18, cases_p, meta_p, cases_t, meta_t)
@@ -852,6 +894,7 @@ def _check(run: Run, thorough: bool):
     lme_all(run, thorough)
     try:
         benchmark_object_reuse(run, thorough)
+        constant_model_reuse(run, thorough)
     except Exception as e:  # noqa
         import traceback
         run.broken("benchmark-object-reuse", f"{type(e).__name__}: {e}\n{traceback.format_exc()[-1200:]}", kind="broken-correspondence")
